@@ -415,4 +415,3 @@ Proof.
     destruct (step_ok (sB (net s)) o HB (op_ok32_ok _ Hev)) as (k1 & x & Hs & _). rewrite Hs. eexists. reflexivity.
 Qed.
 
-Print Assumptions session_prefix.
